@@ -3,13 +3,15 @@ REGP_LIB = runpy.run_path(os.path.join(os.path.dirname(os.path.abspath(__file__)
 CHECK = {
     "level": "model_checking",
     "technique": "stateless bounded-exhaustive enumeration of requests (reference-encoded) through the real regp_recv/regp_process/regp_free with a recording scripted memory backend; replies decoded by an independent decoder; session pairs compared against fresh-instance runs (differential, one level closes the search because the server keeps no per-request state)",
-    "rule": "a case is one request (or one ordered pair of frames on one session): exactly one backend call with the request's fields and payload, exactly one well-formed reply of the prescribed type/code/payload, balanced allocator ledger; every case is non-trivial",
-    "assumptions": ["requests use block sizes for which request and answer fit the 160-octet allocator block (capacity boundary itself is C09's subject)",
-                    "the 'buffer size' carried by overflow responses is accepted as block size or block size minus the frame descriptor",
+    "rule": "a case is one request (or one ordered pair of frames on one session): exactly one backend call with the request's fields and payload (none for reads that cannot fit), exactly one well-formed reply of the prescribed type/code/payload, balanced allocator ledger; every case is non-trivial",
+    "assumptions": ["a read whose data fits the 160-octet allocator block behind the request's own header but not together with a full 16-octet response header may be served or answered with a transmit-overflow response without access (statement C09: 'a read whose answer cannot fit'); a read that does not fit behind the request's header must be refused that way",
+                    "the 'buffer size' carried by overflow responses is accepted as block size, block size minus the frame descriptor, or that minus the request's header",
+                    "response frames fed as input carry the payload doc/regp.txt 3.1 prescribes for their code (a receiver may reject others; the statement only demands no access and no reply)",
+                    "the return values of regp_recv/regp_process are not compared; only an acknowledged request must not make regp_process report failure",
                     "addresses/sequence numbers/payload contents from the closed sets in the harness"],
     "harnesses": [{
         "name": "c06_process", "src": "harness/c06_process.c", "shape": "espace", "opt": "-O1",
         "lib": REGP_LIB, "min_outcomes": 6,
-        "require_outcomes": {"any": ["read-acked", "write-acked", "error-response", "wordsize-mismatch", "non-request-ignored", "session-pair"]},
+        "require_outcomes": {"any": ["read-acked", "write-acked", "error-response", "wordsize-mismatch", "non-request-ignored", "session-pair", "read-too-large-refused"]},
     }],
 }
